@@ -147,15 +147,26 @@ Fixpoint input_cfg_copy (k : nat) (i : N) (data : list (option N)) : outcome (li
       end
   end.
 
-Definition input_query_config_select (select subsel out_len : N) (wr_ok1 wr_ok2 : bool)
+Definition IN_CFG_DATA_MAX : N := 128.   (* CONFIG_DATA_MAX_LENGTH: the length of Config::data *)
+
+(* bounded: whether a size above CONFIG_DATA_MAX_LENGTH is refused before any data byte is read
+     `if usize::from(size) > CONFIG_DATA_MAX_LENGTH { return Err(Error::IoError); }`
+   (the repaired code, corpus/proposals/input_cfg_fix.diff - the same test query_config_select_alloc always had) or not
+   (the code as it stood before: kept for the refutation lemma InputCfgProofs.ic_select_prefix_refuted) *)
+Definition input_query_config_select_gen (bounded : bool) (select subsel out_len : N) (wr_ok1 wr_ok2 : bool)
   (size : option N) (data : list (option N)) : outcome (N * list N) * list icev :=
   if negb wr_ok1 then (Err EConfigSpaceTooSmall, [ICWrite 0 (w8 select)]) else
   if negb wr_ok2 then (Err EConfigSpaceTooSmall, [ICWrite 0 (w8 select); ICWrite 1 (w8 subsel)]) else
   match size with
   | None => (Err EConfigSpaceTooSmall, [ICWrite 0 (w8 select); ICWrite 1 (w8 subsel); ICRead 2])
   | Some sz =>
+      if bounded && (IN_CFG_DATA_MAX <? w8 sz)
+      then (Err EIoError, [ICWrite 0 (w8 select); ICWrite 1 (w8 subsel); ICRead 2])
+      else
       let n := N.min (w8 sz) out_len in          (* min(usize::from(size), out.len()), size: u8 *)
       let '(o, evs) := input_cfg_copy (N.to_nat n) 0 data in
       (match o with Ok l => Ok (w8 sz, l) | Err e => Err e | Panic => Panic | UB => UB end,
        [ICWrite 0 (w8 select); ICWrite 1 (w8 subsel); ICRead 2] ++ evs)
   end.
+Definition input_query_config_select := input_query_config_select_gen true.
+Definition input_query_config_select_prefix := input_query_config_select_gen false.
